@@ -1,3 +1,4 @@
+import HqModel.Props.SysW
 import HqModel.Props.C06Restart
 import HqModel.Props.WorkerSide
 import HqModel.Lemmas.CoreSteps
